@@ -582,3 +582,8 @@ for _p in ("C11", "C16"):
 SPECS["C11"]["bounded"].append(("contracts.e2e_more", "bounded:image_stream_interleavings"))
 SPECS["C11"]["level_text"] += (". Added: the shared (module-level) AKAI directory adapter keeps its table expression across a parse (frame of FileEntriesAdapter._parse); BOUNDED at image level: "
                                "sample streams of a two-partition AKAI image read in interleaved blocks with lazy listings in between")
+
+# C13: the data generators end - a read that fails ends the data (never a replacement block from an unmoved cursor); every block moves the cursor on
+SPECS["C13"]["contracts"] += ["smpl_extract.transcoder:PassthroughTranscoder.__next__", "lemma:passthrough_concatenation[frame=2]", "lemma:pipeline_block[1x1,w=2,cut]"]
+SPECS["C13"]["level_text"] += ("; the export data generators end: every pass-through block advances the view's cursor by a positive number of bytes and a failed or empty read ends the data "
+                               "(PassthroughTranscoder.__next__, drain lemma with measure; pipeline block over a truncated image)")
